@@ -228,7 +228,7 @@ def c08(chk, thorough):
     offsets.run(chk, prog)
     offsets.dead_input(chk, prog, ['LDAMulticlassStatistics', 'LDAError', 'LDAPrediction', 'LDA'])
     offsets.overwritten_store(chk, prog, ['LDAMulticlassStatistics', 'LDAError', 'LDAPrediction', 'LDA'])
-    offsets.argmax_rule(chk, prog, ['LDAPrediction'])
+    offsets.argmax_rule(chk, prog, ['LDAPrediction'], stored='probability')
     offsets.inversion_failure_test(chk, prog, ['LDA'])
     chk.floor('INV.failure-test', 1)
     offsets.per_index_values(chk, prog, ['LDA', 'LDAPrediction', 'LDAError', 'LDAMulticlassStatistics'])
